@@ -261,6 +261,11 @@ class Concat(Expr):
             ):
                 return
 
+            # with axis=1 every input contributes (outer) or restricts (inner)
+            # the index labels and takes part in the alignment of the
+            # partitions: an input none of whose columns are selected can only
+            # be left out when the inputs need no re-alignment
+            droppable = self.axis == 0 or self._are_co_aligned_or_single_partition
             frames = [
                 (
                     frame[cols]
@@ -269,7 +274,7 @@ class Concat(Expr):
                     else frame
                 )
                 for frame, cols in zip(self._frames, columns_frame)
-                if len(cols) > 0
+                if len(cols) > 0 or not droppable
             ]
             result = type(self)(
                 self.join,
